@@ -7,7 +7,7 @@
 set -u
 PATCH="$(readlink -f "$1")"; CHECK="$2"; TIER="${3:-quick}"; SEED="${4:-20260927}"
 ROOT="${MUTROOT:-/tmp/mutcheck}"
-mkdir -p "$ROOT/root/evidence" "$ROOT/root/replays"
+mkdir -p "$ROOT/root/evidence" "$ROOT/root/replays"; rm -f "$ROOT/root/replays"/*.json
 if [ ! -d "$ROOT/wt" ]; then git -C /repo worktree add -q --detach "$ROOT/wt" HEAD || exit 2; fi
 git -C "$ROOT/wt" reset -q --hard >/dev/null 2>&1; git -C "$ROOT/wt" checkout -q --detach "$(git -C /repo rev-parse HEAD)" && git -C "$ROOT/wt" reset -q --hard && git -C "$ROOT/wt" clean -fdq -e target
 if [ "$PATCH" != "/dev/null" ]; then git -C "$ROOT/wt" apply "$PATCH" 2>/dev/null || (git -C "$ROOT/wt" apply --3way "$PATCH" && git -C "$ROOT/wt" reset -q) || { echo "HARNESS-ERROR: patch does not apply"; exit 2; }; fi
